@@ -861,12 +861,56 @@ class SymMixin:
             self.assign(s.target, var, env, sub)
             self.exec_block(s.body, env, sub)
         paths = self.explore_body(run, env, body, s)
+        self.running_extremum(s, cnt, env, run)
         run.emit("repeat", kterm(cnt), paths, self.site(s), "for")
         for facts, effs, outcome, val in paths:
             if outcome == "return":
                 run.emit("early-return", self.site(s))
         if s.orelse:
             self.exec_block(s.orelse, env, run)
+
+    def running_extremum(self, s, cnt, env, run):
+        """`if N is None or x > N: N = x` (or `if x > N:` with N seeded before the loop) as the only rebinding of N in the loop body:
+        after the loop N is the maximum (minimum for `<`) of the x of all iterations, and of its seed.  The unknown post-loop value of
+        such a local is replaced by that term (the same one max(<generator>) yields)."""
+        for nm, v in list(env.vars.items()):
+            if not (isinstance(v, Sym) and isinstance(v.term, tuple) and v.term[:2] == ("loop-exit", nm)):
+                continue
+            assigns = [n for st in s.body for n in ast.walk(st)
+                       if isinstance(n, (ast.Assign, ast.AugAssign, ast.AnnAssign, ast.NamedExpr)) and
+                       any(isinstance(x, ast.Name) and x.id == nm for t in (n.targets if isinstance(n, ast.Assign) else [n.target]) for x in ast.walk(t))]
+            if len(assigns) != 1 or not isinstance(assigns[0], ast.Assign) or not isinstance(assigns[0].value, ast.Name):
+                continue
+            x = assigns[0].value.id
+            iff = next((n for st in s.body for n in ast.walk(st) if isinstance(n, ast.If) and n.body == [assigns[0]] and not n.orelse), None)
+            if iff is None:
+                continue
+            t = iff.test
+            none_guard = False
+            if isinstance(t, ast.BoolOp) and isinstance(t.op, ast.Or) and len(t.values) == 2 and ast.unparse(t.values[0]) == f"{nm} is None":
+                none_guard, t = True, t.values[1]
+            which = None
+            if isinstance(t, ast.Compare) and len(t.ops) == 1:
+                l, r, op = ast.unparse(t.left), ast.unparse(t.comparators[0]), t.ops[0]
+                if (l, r) == (x, nm):
+                    which = "max" if isinstance(op, (ast.Gt, ast.GtE)) else "min" if isinstance(op, (ast.Lt, ast.LtE)) else None
+                elif (l, r) == (nm, x):
+                    which = "max" if isinstance(op, (ast.Lt, ast.LtE)) else "min" if isinstance(op, (ast.Gt, ast.GtE)) else None
+            if which is None:
+                continue
+            alts = v.info.get("alts") or []
+            init, xs = (alts[0] if alts else None), [a for a in alts[1:] if isinstance(a, Sym)]
+            terms = {a.term[2] if a.term[:1] == ("prev-iteration",) else a.term for a in xs}
+            if len(terms) != 1 or (init is None) != none_guard:
+                continue
+            xt = next(iter(terms))
+            seq = ("repeat", kterm(cnt), (xt,))
+            kind = xs[0].kind
+            if init is None:
+                # empty sequence: stays None (the code after the loop has to deal with it, as max() of an empty sequence raises)
+                env.vars[nm] = Sym((which, seq), kind, maybe_none=True)
+            else:
+                env.vars[nm] = Sym((which, seq, kterm(init)), kind)
 
     def sym_comp(self, e, it, env, run):
         if len(e.generators) != 1:
